@@ -17,6 +17,7 @@ func extractAll(repo string, o *out) {
 	extractClient(repo, o)
 	extractProxy(repo, o)
 	extractConc(repo, o)
+	extractLocks(repo, o)
 }
 
 // emit writes  Definition name params : ty := body.  or, when body is empty, the last-known value.
